@@ -44,6 +44,9 @@ for d in sorted(glob.glob(os.path.join(ROOT, "seeded", "S*"))):
     needs = m["needs"]
     if len(needs) > 260:
         needs = needs[:257] + "…"
+    if m.get("excluded"):
+        out.append(f"| `{sid}` | {m['property']} | {needs} | not a violation of the property: {m['excluded']} — {'**ALARM**' if cb else 'silent, as required'} | |")
+        continue
     out.append(f"| `{sid}` | {m['property']} | {needs} | {cb or '**MISSED**'}{(' — ' + note) if note else ''} | `{key[:90]}` |")
 open(os.path.join(ROOT, "tools", "asbuilt_sens.md"), "w").write("\n".join(out) + "\n")
 print("\n".join(out)[:1500])
